@@ -10,7 +10,7 @@ Line protocol of the C13 model.
 
 tree (prefix notation, tokens separated by `;`):
   `v;<docs>;<score>` | `bu;<sum 0/1>;<n>;T1..Tn` | `su;<n>;T1..Tn` | `in;<dense 0/1>;<n>;T1..Tn`
-  | `ex;<n>;U;E1..En` | `ro;<sum 0/1>;REQ;OPT`
+  | `ex;<n>;U;E1..En` | `ro;<sum 0/1>;REQ;OPT` | `dj;<sum 0/1>;<min_match>;<n>;T1..Tn`
 prog (`;`-separated): `d` doc | `a` advance | `s<t>` seek | `k<t>` seek_danger | `f` fill_buffer
   | `b<m>` fill_bitset_block | `c` count_including_deleted | `x` score
 results: `<doc>` for d/a/s | `F` / `L<bound>` for k | `f:<docs>` | `b:<docs>:<next>` | `c:<n>` | `x:<n>`
@@ -37,6 +37,10 @@ def parseTree : Nat → List String → Option (Tree × List String)
       match sum.toNat?, n.toNat? with
       | some sm, some k => (many k rest []).map (fun (cs, r) => (.bunion (sm == 1) cs, r))
       | _, _ => none
+    | "dj" :: sum :: k :: n :: rest =>
+      match sum.toNat?, k.toNat?, n.toNat? with
+      | some sm, some kk, some nn => (many nn rest []).map (fun (cs, r) => (.disj (sm == 1) kk cs, r))
+      | _, _, _ => none
     | "su" :: n :: rest =>
       match n.toNat? with
       | some k => (many k rest []).map (fun (cs, r) => (.sunion cs, r))
